@@ -360,13 +360,18 @@ func exec[C any](s Spec[C], c C, o *Obs) (f *Failure) {
 	case <-time.After(s.Deadline):
 	}
 	// only a suspicion so far: a loaded machine can starve a goroutine for seconds; a call that really
-	// loops never returns, so give the same call five more deadlines before calling it a hang
+	// loops never returns, so give the same call five more deadlines (at most ten more minutes)
+	// before calling it a hang
+	extra := 5 * s.Deadline
+	if extra > 10*time.Minute {
+		extra = 10 * time.Minute
+	}
 	select {
 	case r := <-done:
 		*o = *r.o
 		return r.f
-	case <-time.After(5 * s.Deadline):
-		return Failf("hang", "case did not return within %v (normal cost is milliseconds); the call does not terminate", 6*s.Deadline)
+	case <-time.After(extra):
+		return Failf("hang", "case did not return within %v (far beyond its normal cost); the call does not terminate", s.Deadline+extra)
 	}
 }
 
